@@ -376,6 +376,10 @@ func TestTrap(t *testing.T) {
 			case <-time.After(15 * time.Second):
 				fatalf("Node.Stop did not return within 15 s (receiver trap=%v, top-level=%v)", trap, topLevel)
 			}
+			// (Node.Stop waits until the processes are unregistered; a process's terminate callback
+			// runs right after that)
+			kit.WaitUntil(5*time.Second, func() bool { return probe.Terminated("recv", recv) })
+			time.Sleep(time.Millisecond)
 			var terms []kit.Event
 			for _, e := range probe.EventsOf("recv") {
 				if e.Kind == "terminate" {
